@@ -380,6 +380,43 @@ pub fn run(ctx: &Ctx) -> i32 {
             }
             ev.count("builds:far-back-and-history-shapes");
         }
+        // many distinct WIDE nodes held by the cache at once (hundreds of thousands of transitions resident, no eviction in
+        // a roomy cache), and then the whole group a second time under another first byte: every node of the second group
+        // must be found again
+        for variant in 0..ctx.tier.pick(3, 12) {
+            if (variant + 5) % n != shard {
+                continue;
+            }
+            let mut r = Rng::new(ctx.seed, 0x12_b16 + variant as u64);
+            let (nwide, fan) = [(700usize, 256usize), (1500, 100), (2400, 40), (900, 200)][variant % 4];
+            let nwide = nwide + r.usize(100);
+            let valued = variant % 2 == 0;
+            let mut kv: Kv = vec![];
+            for g in 0..2u8 {
+                for i in 0..nwide {
+                    for c in 0..fan {
+                        let c = (c * 255 / (fan - 1)) as u8;
+                        // block i differs from all others by one value (maps) or by one missing child (sets)
+                        if !valued && c as usize == 1 + i % 200 && (i / 200) as u8 == c % 13 {
+                            continue;
+                        }
+                        let val = if valued && c == 1 { i as u64 + 1 } else { 0 };
+                        let mut k = vec![g, (i / 256) as u8, (i % 256) as u8, c];
+                        if !valued {
+                            k.push((i % 7) as u8);
+                            k.push((i / 7 % 11) as u8);
+                            k.push((i / 77) as u8);
+                        }
+                        kv.push((k, val));
+                    }
+                }
+            }
+            kv.sort();
+            kv.dedup_by(|a, b| a.0 == b.0);
+            ev.fps.insert(crate::rng::fnv_u64(0x12_b16, variant as u64));
+            judge(&kv, (200_000, 2), "hundreds of distinct wide nodes resident in the cache, then all of them again", ev);
+            ev.count("builds:many-wide-nodes-resident-then-repeated");
+        }
         // random sets/maps up to 3000 keys with heavy suffix sharing, all geometries
         let nrand = ctx.tier.pick(2000, 50_000);
         for i in 0..nrand {
@@ -431,9 +468,9 @@ pub fn run(ctx: &Ctx) -> i32 {
         ev,
         Spec {
             level: "exploration",
-            rule: "one evaluation = one build whose emitted node graph (read by the independent decoder) is compared with harness-side oracles: (1) always: #reachable nodes <= #nodes of the keys' prefix trie; (2) when the cache counters (hook H2) show zero evictions and the cache has cells: no two reachable nodes have the same signature (final, final output, [(byte, output, class(child))]) and, for sets, #nodes == #states of the minimal acyclic DFA computed by bottom-up right-language classes on the trie; (3) corpora as sets: (trie - emitted)/(trie - minimal) > 0.5; builds: ALL 32768 subsets of {a,b}^<=3 as sets (default geometry) and as two maps each (rotating geometries 10000x2, 0x0, 1x1, 1x3, 7x2, 64x2), the same wide fan under several prefixes, tiny states reused by 60-180 wide nodes across files of hundreds of KB, common suffixes separated by runs of 100-3000 unique nodes, suffixes of 200-1200 bytes shared under different prefixes, equivalent wide nodes whose outputs exceed 2^33, random sets/maps to 3000 keys, thorough also all subsets of {a,b,c}^<=2; builds with evictions or without cache are counted and excluded from (2); non-trivial = every build; distinct = by fingerprint",
+            rule: "one evaluation = one build whose emitted node graph (read by the independent decoder) is compared with harness-side oracles: (1) always: #reachable nodes <= #nodes of the keys' prefix trie; (2) when the cache counters (hook H2) show zero evictions and the cache has cells: no two reachable nodes have the same signature (final, final output, [(byte, output, class(child))]) and, for sets, #nodes == #states of the minimal acyclic DFA computed by bottom-up right-language classes on the trie; (3) corpora as sets: (trie - emitted)/(trie - minimal) > 0.5; builds: ALL 32768 subsets of {a,b}^<=3 as sets (default geometry) and as two maps each (rotating geometries 10000x2, 0x0, 1x1, 1x3, 7x2, 64x2), the same wide fan under several prefixes, tiny states reused by 60-180 wide nodes across files of hundreds of KB, 700-2500 pairwise different nodes of fan-out 40-256 resident in a roomy cache at once (10^5-10^6 transitions, no eviction) followed by all of them a second time, common suffixes separated by runs of 100-3000 unique nodes, suffixes of 200-1200 bytes shared under different prefixes, equivalent wide nodes whose outputs exceed 2^33, random sets/maps to 3000 keys, thorough also all subsets of {a,b,c}^<=2; builds with evictions or without cache are counted and excluded from (2); non-trivial = every build; distinct = by fingerprint",
             assumptions: vec!["the premise 'no eviction' is taken from the cfg-guarded counters in registry.rs; a tree that replaces the cache implementation keeps them at 0, i.e. claims never to evict".into(), "'most of the achievable sharing' is read as a ratio > 0.5; measured ratios are recorded".into()],
-            floors: vec![("builds:premise-no-eviction-observed", 1000), ("builds:sets-compared-with-minimal-dfa", 1000), ("builds:excluded-from-minimality(evictions-or-no-cache)", 10), ("corpora-judged", 2), ("builds:duplicated-wide-subautomata", 60), ("builds:far-back-and-history-shapes", 9), ("builds:side-by-side-on-one-thread", 300), ("builds:wide-final-node-between-shared-suffixes", 60)],
+            floors: vec![("builds:premise-no-eviction-observed", 1000), ("builds:sets-compared-with-minimal-dfa", 1000), ("builds:excluded-from-minimality(evictions-or-no-cache)", 10), ("corpora-judged", 2), ("builds:duplicated-wide-subautomata", 60), ("builds:far-back-and-history-shapes", 9), ("builds:side-by-side-on-one-thread", 300), ("builds:wide-final-node-between-shared-suffixes", 60), ("builds:many-wide-nodes-resident-then-repeated", 3)],
             exhaustive: Some(true),
         },
     )
